@@ -336,6 +336,10 @@ func c09CommandLine(x *xctx) *violation {
 			args = append(args, "-"+o+"="+c09Value(t))
 		}
 	}
+	for i, nf := 0, t.Choose(K, 3); i < nf; i++ {
+		// any flag the tree registers, with a value of its type (or not)
+		args = append(args, treeFlag(t, []string{c09Value(t)}))
+	}
 	if t.Bool(K, 85) {
 		c := []string{"top", "text", "tree", "peek", "list", "weblist", "disasm", "tags", "traces", "raw", "proto", "topproto", "dot", "callgrind", "comments", "svg", "png", "web", "kcachegrind", "eog"}[t.Choose(K, 20)]
 		if c == "peek" || c == "list" || c == "weblist" || c == "disasm" {
